@@ -322,6 +322,13 @@ impl GrammarBuilder {
 
                 // Map meta-data to production fields for easier access
                 if let Some(ConstVal::Int(prio)) = new_production.meta.remove("priority") {
+                    if *prio.as_ref() == u32::MAX {
+                        err!(
+                            "Priority is too large.".to_owned(),
+                            Some(self.file.clone()),
+                            prio.span
+                        )?
+                    }
                     new_production.prio = prio.into();
                 }
 
